@@ -62,15 +62,43 @@ def c18_marathon(seed, run, tier):
     spec = gen_data.gen_spec("C18", seed, run, tier, prof)
     rng = prng.stream(seed, "C18", run, "marathon")
     info = gen_data.world_info(spec["world"])
-    n = rng.randint(650, 900) if tier == "quick" else rng.randint(700, 1600)
+    ps = W.parties(spec["world"])
+    common = set.intersection(*[set(p["fields"]) for p in ps])
+    min_members = min(sum(1 for f in p["fields"] if W.field_kind(f)[0] == "ens") for p in ps)
+    # requests that succeed on every input (a failed request is not cached, and a long history of errors
+    # exercises nothing): fields every party can deliver
+    allowed = []
+    if any("obs" in p["fields"] for p in ps):
+        allowed.append(["Obs"])
+    if "fcst" in common:
+        allowed.append(["Fcst"])
+    allowed += [["Ensemble", m] for m in range(min_members)]
+    if min_members >= 1:
+        allowed += [["Threshold", t] for t in W.THRESHOLDS] + [["Quantile", q] for q in W.QUANTILES]
+    allowed += [["Other", o] for o in info["others"] if o in common]
+    if len(allowed) < 2:
+        allowed = [["Obs"], ["Fcst"]]
+    u = spec["world"]["universe"]
+    sizes = {"Time": len(u["times"]), "Leadtime": len(u["leadtimes"]), "Location": len(u["locations"]),
+             "Lat": len(u["locations"]), "Lon": len(u["locations"]), "Elev": len(u["locations"])}
+    n = rng.randint(620, 760) if tier == "quick" else rng.randint(700, 1600)
     seen, ops = set(), []
     guard = 0
-    while len(ops) < n and guard < 20 * n:
+    while len(ops) < n and guard < 30 * n:
         guard += 1
-        fields, single = gen_data.gen_fields(rng, info, prof)
-        axis = rng.choice(gen_data.ALL_AXES[2:17])
-        op = {"op": "req", "fields": fields, "single": single, "input": rng.randrange(info["n_inputs"]), "axis": axis,
-              "index": {"wrap": rng.randrange(0, 6)}, "client": 0}
+        fields = rng.sample(allowed, rng.randint(1, min(3, len(allowed))))
+        axis = rng.choice(["Time", "Leadtime", "Location", "Lat", "Lon", "Elev", "Time", "Leadtime", "Location", "No", "All",
+                           "Year", "Month", "Week", "Day", "Timeofday", "Dayofyear", "Dayofmonth", "Monthofyear", "Leadtimeday"])
+        if axis in sizes:
+            index = rng.randrange(sizes[axis])
+        elif axis == "All":
+            index = None
+        elif axis == "No":
+            index = 0
+        else:
+            index = {"wrap": rng.randrange(0, 4)}
+        op = {"op": "req", "fields": fields, "single": len(fields) == 1 and rng.random() < 0.3,
+              "input": rng.randrange(info["n_inputs"]), "axis": axis, "index": index, "client": 0}
         key = json.dumps([op["fields"], op["single"], op["input"], op["axis"], op["index"]])
         if key in seen:
             continue
@@ -86,7 +114,7 @@ def c18_marathon(seed, run, tier):
 
 
 def c18_gen(seed, run, tier):
-    if run % 400 == 7:
+    if run % (700 if tier == "quick" else 400) == 7:
         return c18_marathon(seed, run, tier)
     spec = gen_data.gen_spec("C18", seed, run, tier, gen_data.PROFILE_C18)
     trng = prng.stream(seed, "C18", run, "tenant")
